@@ -204,6 +204,7 @@ func (vc *VC) generate() {
 	}
 	vc.entryLines = len(vc.lines)
 	f.walk(TTrue, entry)
+	vc.addNamedAxioms()
 	if vc.pass == 2 {
 		// vacuity: a function whose every path ends in a noreturn call has no return cover;
 		// cover its entry instead
@@ -381,4 +382,33 @@ func (vc *VC) usesBitOps() bool {
 		}
 	}
 	return false
+}
+
+// addNamedAxioms: induction-backed facts about the recursive spec functions this VC uses.
+func (vc *VC) addNamedAxioms() {
+	for _, ax := range vc.specs.NamedAxioms {
+		if ax.Uses != "" && !vc.usedFns[ax.Uses] {
+			continue
+		}
+		key := "axiom:" + ax.Name
+		if vc.usedFns[key] {
+			continue
+		}
+		vc.usedFns[key] = true
+		env := &Env{vc: vc, bound: map[string]TV{}, state: State{}, old: State{}, pkg: vc.fnPkg()}
+		func() {
+			defer func() {
+				if r := recover(); r != nil {
+					if se, ok := r.(specError); ok {
+						vc.unsupp("%s: axiom %s: %s", ax.Clause.Src, ax.Name, string(se))
+						return
+					}
+					panic(r)
+				}
+			}()
+			t := vc.evalBool(ax.Clause.Expr, env)
+			vc.fnDefs = append(vc.fnDefs, "(assert "+t.S+")")
+			vc.assumptions["induction: "+ax.Name+" follows from lemma "+ax.By+" (base and step discharged by the solver; the induction principle is applied outside it)"] = true
+		}()
+	}
 }
